@@ -27,6 +27,7 @@
   empty reads; underlying read errors other than EOF.
 -/
 import Oryx.Proofs.Json.Decorate
+import Oryx.Proofs.Json.Read
 namespace Oryx.Props.C17
 open Oryx Oryx.Json
 
@@ -127,6 +128,34 @@ theorem no_comment_identity (ps : List Piece) (hps : ∀ p ∈ ps, p.WF) (hnc : 
 theorem old_search_witness :
     index [34] ([120, 92, 34] ++ [34]) = some 2 ∧ indexEsc [34] ([120, 92, 34] ++ [34]) = some 3 := by decide
 
+/-! ### consumer_free: the buffer between the Scanner and the consumer (`commentReader.Read`) -/
+
+/-- For EVERY sequence of `Read` calls — slices of any lengths, zero included, in any order of sizes — on the comment
+reader over ANY input: the bytes handed out so far followed by what the reader still owes are exactly what `strip`
+emits (nothing lost, duplicated or reordered between two calls). -/
+theorem consumer_free (input : Bytes) (sizes : List Nat) :
+    outBytes ((Rd.ofInput jsonPlus input).reads sizes).2 ++ ((Rd.ofInput jsonPlus input).reads sizes).1.remaining =
+      (strip jsonPlus input).1 := by
+  rw [reads_remaining, (ofInput_remaining jsonPlus input).1]
+
+/-- ... and a sequence that runs into `io.EOF` (or the scanner's error) has handed out all of it. -/
+theorem consumer_complete (input : Bytes) (sizes : List Nat) (o : ROut) (ho : o = .eof ∨ o = .err)
+    (h : ((Rd.ofInput jsonPlus input).reads sizes).2.getLast? = some o) :
+    outBytes ((Rd.ofInput jsonPlus input).reads sizes).2 = (strip jsonPlus input).1 := by
+  rw [reads_complete _ _ o ho h, (ofInput_remaining jsonPlus input).1]
+
+/-- EOF / the error are reported only when nothing is owed; a Read with a non-empty slice makes progress otherwise -/
+theorem consumer_progress (r : Rd) (n : Nat) :
+    ((r.read n).2 = .eof ∨ (r.read n).2 = .err → r.remaining = []) ∧
+    (0 < n → r.remaining ≠ [] → ∃ b, (r.read n).2 = .data b ∧ b ≠ []) :=
+  ⟨read_end_nothing_left r n, read_progress r n⟩
+
+/-- the variant of a seeded change (a `WriteTo` that drains the Scanner and forgets the reader's buffer) loses the rest of
+the token a short Read has cut: `[1]` read one byte at a time, then "the rest". -/
+theorem consumer_forgetful_variant_breaks :
+    let r := ((Rd.ofInput jsonPlus [91, 49, 93]).read 1).1
+    r.remaining = [49, 93] ∧ r.writeToForgetful = [] := by decide +kernel
+
 /-! ### non-vacuity: the hypotheses are inhabited by documents with every feature the property names -/
 
 instance : DecidablePred Piece.WF := fun p => by
@@ -147,6 +176,9 @@ example : (renderDoc exDoc exTail).length = 48 ∧ (keptDoc exDoc).length = 26 :
 -- one-byte reads of the F13 input `{"a":"x\""}` give the document back
 example : stripChunks jsonPlus ([123, 34, 97, 34, 58, 34, 120, 92, 34, 34, 125].map fun b => [b]) =
     ([123, 34, 97, 34, 58, 34, 120, 92, 34, 34, 125], .ok) := by decide +kernel
+-- consumer side: `[1,/*c*/2]` read with slices of 1, 0, 2, 100 bytes and once more
+example : ((Rd.ofInput jsonPlus [91, 49, 44, 47, 42, 99, 42, 47, 50, 93]).reads [1, 0, 2, 100, 5]).2 =
+    [.data [91], .data [], .data [49, 44], .data [50, 93], .eof] := by decide +kernel
 -- error branch (not part of the property's domain): an unterminated block comment is refused
 example : strip jsonPlus [49, 47, 42, 50] = ([], .err) := by decide +kernel
 -- no_comment_identity hypothesis
